@@ -78,7 +78,7 @@ def run(tier, seed, replay=None):
     scripts = maybe_replay(chk, replay, scripts, zoo, paths)
     traces = run_histories(chk, binary, [{k: v for k, v in s.items() if not k.startswith('_')} for s in scripts])
     nfind = collections.Counter()
-    ta_cases, bln_cases = [], []
+    ta_cases, bln_cases, moved_cases = [], [], []
     n_opt_events = 0
     for sc in scripts:
         recs = traces.get(sc['name']) or []
@@ -125,6 +125,14 @@ def run(tier, seed, replay=None):
                             ta_cases.append('({| ti_pin_cpu := %s; ti_pin_mem := %s; ti_cpu_preserve := %s; ti_mem_preserve := %s |}, %s, %s)' % (
                                 b(cfg.get('pinCPU', False)), b(cfg.get('pinMemory', False)), b(g[0]['cputype'] == 'preserve'), b(g[0].get('mem_preserve')), b(wc), b(wm)))
                     else:
+                        # the other containers whose memory nodes were written in this request (moved by the allocator)
+                        for oid in sorted({k[1] for k in rec['calls'] or [] if k[0] == 'SetCpusetMems' and k[1] != cid}):
+                            oc = cache.get(oid)
+                            ox = [x for x in rec['bln']['balloons'] if any(oid in l for l in x['members'].values())]
+                            if oc and ox:
+                                tp = 'None' if ox[0]['pin_memory'] is None else 'Some %s' % b(ox[0]['pin_memory'])
+                                moved_cases.append('{| bi_pin_cpu := %s; bi_pin_mem := %s; bi_type_pin_mem := %s; bi_mem_preserve := %s |}' % (
+                                    b(cfg.get('pinCPU', False)), b(cfg.get('pinMemory', False)), tp, b(oc.get('preserve_mem'))))
                         x = [x for x in rec['bln']['balloons'] if any(cid in l for l in x['members'].values())]
                         if x:
                             tp = 'None' if x[0]['pin_memory'] is None else 'Some %s' % b(x[0]['pin_memory'])
@@ -136,7 +144,8 @@ def run(tier, seed, replay=None):
         f.write('From Coq Require Import List. Import ListNotations.\nFrom NV Require Import Optout_Model.\n')
         f.write('Definition ta : list (ta_in * bool * bool) := [%s].\n' % ';\n'.join(ta_cases))
         f.write('Definition bl : list (bln_in * bool * bool) := [%s].\n' % ';\n'.join(bln_cases))
-        f.write('Definition M := Eval vm_compute in (bad_cases ta_case_ok 0 ta, bad_cases bln_case_ok 0 bl).\nPrint M.\n')
+        f.write('Definition mv : list bln_in := [%s].\n' % ';\n'.join(moved_cases))
+        f.write('Definition M := Eval vm_compute in (bad_cases ta_case_ok 0 ta, bad_cases bln_case_ok 0 bl ++ bad_cases bln_moved_case_ok 100000 mv).\nPrint M.\n')
     rc, out = coqc_file(p)
     body = parse_coq_print(out, 'M')
     if rc != 0 or body is None:
@@ -150,7 +159,7 @@ def run(tier, seed, replay=None):
         rule='random histories under both policies with cpu.preserve / memory.preserve annotations at container, pod and bare level, balloons preserve rules, pinCPU/pinMemory off globally or per balloon type, coexisting with ordinary containers that shrink/grow shared sets, inflate/deflate balloons and widen zones; '
              'non-trivial as for C01; events_with_optouts counts requests during which at least one opted-out container was cached',
         evaluations=events, distinct=nt, traces=len(traces),
-        extra_cov={'histories': len(traces), 'events': events, 'events_with_optouts': n_opt_events, 'decision_cases': len(ta_cases) + len(bln_cases),
+        extra_cov={'histories': len(traces), 'events': events, 'events_with_optouts': n_opt_events, 'decision_cases': len(ta_cases) + len(bln_cases), 'moved_container_cases': len(moved_cases),
                    'oracle_findings': {'%s/%s' % k: v for k, v in nfind.items()}})
 
 
